@@ -199,7 +199,7 @@ func ZZ_C12_commit_xor_rollback() {
 // changes nothing.
 func ZZ_C12_after_final() {
 	w := zzNewWorld()
-	k := w.keyAndPrefix()
+	k := w.keyAndPrefixWide()
 	t := w.pickTxn("txn")
 	key := zzKeys[k]
 	by := zzChoice("by", 6)
